@@ -5704,20 +5704,25 @@ func (a *Agent) handleQueuedState(peerID identity.AgentID, frame *protocol.Frame
 		a.flooder.HandleNodeInfoAdvertise(peerID, nodeInfo.OriginAgent, nodeInfo.Sequence, nodeInfo.EncInfo, nodeInfo.SeenBy)
 	}
 
-	// Check for sleep/wake commands in queued state
+	// Sleep/wake commands carried in queued state take the same path as
+	// flooded ones, so that they are deduplicated, verified (signature and
+	// timestamp window when a signing key is configured) and forwarded
+	// before the agent acts on them.
 	if state.SleepCmd != nil && a.sleepMgr != nil {
-		a.logger.Info("entering sleep mode from queued command")
-		if err := a.sleepMgr.Sleep(); err != nil {
-			a.logger.Error("failed to enter sleep mode from queued command",
-				logging.KeyError, err)
-		}
+		a.logger.Debug("processing queued sleep command")
+		a.handleSleepCommand(peerID, &protocol.Frame{
+			Type:     protocol.FrameSleepCommand,
+			StreamID: protocol.ControlStreamID,
+			Payload:  state.SleepCmd.Encode(),
+		})
 	}
 	if state.WakeCmd != nil && a.sleepMgr != nil {
-		a.logger.Info("waking from queued command")
-		if err := a.sleepMgr.Wake(); err != nil {
-			a.logger.Error("failed to wake from queued command",
-				logging.KeyError, err)
-		}
+		a.logger.Debug("processing queued wake command")
+		a.handleWakeCommand(peerID, &protocol.Frame{
+			Type:     protocol.FrameWakeCommand,
+			StreamID: protocol.ControlStreamID,
+			Payload:  state.WakeCmd.Encode(),
+		})
 	}
 }
 
